@@ -367,6 +367,23 @@ func driver(seed uint64, n int, outV, outJSON string, _ []string) {
 		ctx := context.Background()
 		failed := func(what string) { rep.Fail(c, what, strings.Join(text, " ; ")) }
 
+		// blob index for a lookup: mostly one that is currently indexed in that key space
+		pickPresent := func(before disk.VerifSnapshot, prefix string) int {
+			if r.Chance(70) {
+				var cand []int
+				for _, e := range before.Order {
+					if strings.HasPrefix(e.Key, prefix) {
+						if j, ok := byHash[e.Key[len(prefix):]]; ok {
+							cand = append(cand, j)
+						}
+					}
+				}
+				if len(cand) > 0 {
+					return cand[r.Intn(len(cand))]
+				}
+			}
+			return r.Intn(len(blobs))
+		}
 		for i := 0; i <= nops; i++ {
 			before := disk.VerifCacheSnapshot(dc)
 			var op, out, t string
@@ -481,7 +498,7 @@ func driver(seed uint64, n int, outV, outJSON string, _ []string) {
 					ki = 0
 				}
 				kind, kname := kindOf(ki)
-				bi := r.Intn(len(blobs))
+				bi := pickPresent(before, kind.String()+"/")
 				b := blobs[bi]
 				hash := b.hash
 				size := int64(len(b.data))
@@ -675,7 +692,7 @@ func driver(seed uint64, n int, outV, outJSON string, _ []string) {
 				t = fmt.Sprintf("Get(%s,blob%d,size=%d,off=%d,zstd=%v,backend=%s)=%s", kname, bi, size, off, zs, bdesc, strings.TrimPrefix(out, "Some "))
 			case p < 83: // ---------------- Contains
 				kind, kname := kindOf(r.Intn(3))
-				bi := r.Intn(len(blobs))
+				bi := pickPresent(before, kind.String()+"/")
 				hash, size := blobs[bi].hash, int64(len(blobs[bi].data))
 				switch r.Intn(5) {
 				case 0:
@@ -718,7 +735,7 @@ func driver(seed uint64, n int, outV, outJSON string, _ []string) {
 				fp.mu.Unlock()
 				var wantMissing []string
 				for j := 0; j < nd; j++ {
-					bi := r.Intn(len(blobs))
+					bi := pickPresent(before, "cas/")
 					hash, size := blobs[bi].hash, int64(len(blobs[bi].data))
 					if r.Chance(10) {
 						size++
